@@ -542,8 +542,8 @@ class Runner:
                 if 1 <= n <= n0:
                     want = self.content.get(self.uids0[n - 1])
                     if want is not None and data != want and data != want + b"\r\n":
-                        self.find(f"RETR {n} delivers a message that is not UID {self.uids0[n - 1]} "
-                                  f"(UIDL {n}): starts {data[:60]!r}, expected {want[:60]!r}", "rebound")
+                        self.find(f"RETR {n} does not deliver the octets of the message with UID {self.uids0[n - 1]} "
+                                  f"(the UID UIDL {n} shows): starts {data[:60]!r}, expected {want[:60]!r}", "content")
                     elif want is not None and data != want:
                         self.find(f"RETR {n} delivers the message of UID {self.uids0[n - 1]} plus {len(data) - len(want)} extra octets", "octets")
             if n in self.marks or not (1 <= n <= n0):
